@@ -697,13 +697,7 @@ theorem C18_inference_types_unchanged (w : QRec) (b : Option QRec) (c : InfConst
   | none =>
     simp only at h
     have hw : (if w.isPo2 then updateInferenceValues w c.wv else (w, -1)).1 = w := by split <;> rfl
-    cases hu : c.unusedBias with
-    | none => simp only [hu] at h; injection h with h; subst h; exact ⟨hw, rfl⟩
-    | some u =>
-      simp only [hu] at h
-      split at h
-      · cases h
-      · injection h with h; subst h; exact ⟨hw, rfl⟩
+    injection h with h; subst h; exact ⟨hw, rfl⟩
 
 theorem inferNode_fst (n : Node) (c : InfConsts) (n' : Node) (wc bc : ℤ)
     (h : inferNode n c = .ok (n', wc, bc)) : n' = n := by
@@ -797,49 +791,71 @@ theorem C18_inference_counts (w : QRec) (b : Option QRec) (c : InfConsts) (r : I
     unfold inferenceBlock at h
     cases b with
     | some bq => simp only at h; injection h with h; subst h; rfl
-    | none =>
-      simp only at h
-      cases hu : c.unusedBias with
-      | none => simp only [hu] at h; injection h with h; subst h; rfl
-      | some u =>
-        simp only [hu] at h
-        split at h
-        · cases h
-        · injection h with h; subst h; rfl
+    | none => simp only at h; injection h with h; subst h; rfl
   refine ⟨fun hp => ?_, fun hp => ⟨?_, nodup_distinctVals _, mem_distinctVals _, length_distinctVals_le _,
     distinctVals_pos⟩⟩
   · rw [hwc, hp]; rfl
   · rw [hwc, hp]; rfl
 
-/-- PARTIAL (no IndexError): the block succeeds for every layer WITH a bias weight, and for a
-    layer without one unless the quantizer left in the unused bias slot is a po2 quantizer -/
-theorem C18_inference_no_index_error_partial (w : QRec) (b : Option QRec) (c : InfConsts)
-    (h : b ≠ none ∨ c.unusedBias = none ∨ ∃ u, c.unusedBias = some u ∧ u.isPo2 = false) :
+/-- NO IndexError (full; was `C18_inference_no_index_error_partial` with the hypothesis "a bias
+    weight, or no po2 quantizer left in the unused bias slot" until the repair of
+    C18-inference-unused-po2-bias): the block succeeds for every layer, every record, every list of
+    constants, whatever quantizer sits in the bias slot of a layer built with `use_bias=False` -/
+theorem C18_inference_no_index_error (w : QRec) (b : Option QRec) (c : InfConsts) :
     inferenceBlock w b c ≠ .indexError := by
   unfold inferenceBlock
-  cases b with
-  | some bq => simp
-  | none =>
-    rcases h with h | h | ⟨u, hu, hp⟩
-    · exact absurd rfl h
-    · simp [h]
-    · simp [hu, hp]
+  cases b <;> simp
 
-/-- COUNTEREXAMPLE (finding C18-inference-unused-po2-bias): `QDense(3, use_bias=False,
-    kernel_quantizer=quantized_bits(4,0), bias_quantizer=quantized_po2(3))`: the block tests
-    `bias_quantizer.is_po2` before the layer's `use_bias` is consulted and indexes `weights[1]`
-    of a one-element list — `QTools(..., is_inference=True)` raises IndexError and reports
-    nothing, although `is_inference=False` reports the layer (bias type `None`). -/
-theorem C18_inference_unused_po2_bias_counterexample :
+/-- … hence for every chain: `QTools(..., is_inference=True)` produces a map whenever
+    `is_inference=False` does, and it is the same map (`C18_inference_same_reports`) -/
+theorem C18_inference_chain_total (src : QRec) (nodes : List (Node × InfConsts)) :
+    ∃ cs, chainTypesInf src nodes = .ok (chainTypes src (nodes.map (·.1)), cs) := by
+  have hnode : ∀ (n : Node) (c : InfConsts), ∃ wc bc, inferNode n c = .ok (n, wc, bc) := by
+    intro n c
+    cases n with
+    | qact q => exact ⟨-1, -1, rfl⟩
+    | pass => exact ⟨-1, -1, rfl⟩
+    | layer kind w b shape act ap =>
+      cases hb : inferenceBlock w b c with
+      | indexError => exact absurd hb (C18_inference_no_index_error w b c)
+      | ok r =>
+        obtain ⟨h1, h2⟩ := C18_inference_types_unchanged w b c r hb
+        refine ⟨r.wCounts, r.bCounts, ?_⟩
+        simp only [inferNode, hb, h1, h2]
+  have hchain : ∃ cs, inferChain nodes = .ok (nodes.map (·.1), cs) := by
+    induction nodes with
+    | nil => exact ⟨[], rfl⟩
+    | cons p rest ih =>
+      obtain ⟨n, c⟩ := p
+      obtain ⟨wc, bc, hn⟩ := hnode n c
+      obtain ⟨cs, hr⟩ := ih
+      exact ⟨(wc, bc) :: cs, by simp only [inferChain, hn, hr, List.map_cons]⟩
+  obtain ⟨cs, hc⟩ := hchain
+  exact ⟨cs, by simp only [chainTypesInf, hc]⟩
+
+/-- the record left in the unused bias slot is irrelevant to the block -/
+theorem C18_inference_unused_bias_irrelevant (w : QRec) (c : InfConsts) (u : Option QRec) :
+    inferenceBlock w none { c with unusedBias := u } = inferenceBlock w none c := rfl
+
+/-- REGRESSION WITNESS (former finding C18-inference-unused-po2-bias, repaired): `QDense(3,
+    use_bias=False, kernel_quantizer=quantized_bits(4,0), bias_quantizer=quantized_po2(3))`: the
+    block used to test `bias_quantizer.is_po2` before the layer's `use_bias` was consulted and
+    indexed `weights[1]` of a one-element list — `QTools(..., is_inference=True)` raised IndexError
+    and reported nothing (`inferenceBlock … = .indexError`).  Now the block leaves the kernel record,
+    no bias record and no counts, and the inference route reports what `is_inference=False` does. -/
+theorem C18_inference_unused_po2_bias_fixed_witness :
     let w : QRec := { tQuantizedBits with bits := 4, intBits := 0, signed := true }
     let u : QRec := { tPowerOfTwo with bits := 3, intBits := 3, signed := true }
     let x : QRec := { tQuantizedBits with bits := 4, intBits := 1, signed := true }
-    ofQuantizer { cls := "quantized_po2", bits := 3 } = some u ∧
-    inferenceBlock w none { wv := [1/2, -1/4], bv := [], unusedBias := some u } = .indexError ∧
-    chainTypesInf x [(.layer .dense w none [2, 1] none none,
-      { wv := [1/2, -1/4], bv := [], unusedBias := some u })] = .indexError ∧
+    ofQuantizer { cls := "quantized_po2", bits := 3 } = some u ∧ u.isPo2 = true ∧
+    (∃ r, inferenceBlock w none { wv := [1/2, -1/4], bv := [], unusedBias := some u } = .ok r ∧
+      r.w = w ∧ r.b = none ∧ r.wCounts = -1 ∧ r.bCounts = -1) ∧
+    (∃ cs, chainTypesInf x [(.layer .dense w none [2, 1] none none,
+      { wv := [1/2, -1/4], bv := [], unusedBias := some u })] =
+        .ok (chainTypes x [.layer .dense w none [2, 1] none none], cs)) ∧
     (chainTypes x [.layer .dense w none [2, 1] none none]).isSome = true := by
-  refine ⟨rfl, rfl, rfl, by decide⟩
+  refine ⟨rfl, rfl, ⟨_, rfl, rfl, rfl, rfl, rfl⟩, ?_, by decide⟩
+  exact C18_inference_chain_total _ _
 
 /-- SOUND TIGHTENING (what an implementation of the TODO "update the quantizer type with min and
     max of the constant values" may write): capping a po2 record's `max_val_po2` at ANY positive
